@@ -167,6 +167,29 @@ impl<'ast> Visit<'ast> for LoopFinder {
                 }
             }
         }
+        // D12: X.into_iter().filter(|PAT| COND).collect::<Vec<_>>()   (PAT an identifier bound to a reference)
+        if e.method == "collect" && e.args.is_empty() {
+            if let syn::Expr::MethodCall(fl) = &*e.receiver {
+                if fl.method == "filter" && fl.args.len() == 1 {
+                    if let (syn::Expr::Closure(c), syn::Expr::MethodCall(it)) = (&fl.args[0], &*fl.receiver) {
+                        if it.method == "into_iter" && it.args.is_empty() && c.inputs.len() == 1 && matches!(c.inputs[0], syn::Pat::Ident(_)) {
+                            let mut ef = EscapeFinder::default();
+                            ef.visit_expr(&c.body);
+                            if ef.escapes == 0 {
+                                let call = e.span().byte_range();
+                                let recv = it.receiver.span().byte_range();
+                                let pat = c.inputs[0].span().byte_range();
+                                let body = c.body.span().byte_range();
+                                self.vd.push(format!(
+                                    "{{\"rule\":\"D12\",\"call\":[{},{}],\"recv\":[{},{}],\"pat\":[{},{}],\"body\":[{},{}]}}",
+                                    call.start, call.end, recv.start, recv.end, pat.start, pat.end, body.start, body.end
+                                ));
+                            }
+                        }
+                    }
+                }
+            }
+        }
         // D11: X.iter().map(|PAT| EXPR).sum::<T>()
         if e.method == "sum" && e.args.is_empty() && e.turbofish.is_some() {
             if let syn::Expr::MethodCall(mp) = &*e.receiver {
